@@ -302,7 +302,7 @@ func TestC03(t *testing.T) {
 		for l := range labels {
 			cl = append(cl, l)
 		}
-		canon := append(append([]byte{}, data...), []byte(fmt.Sprint(c.Sizes, c.ErrCalls, c.NilCalls, c.GetMode))...)
+		canon := append(append([]byte{}, data...), []byte(fmt.Sprint(c.Sizes, c.ErrCalls, c.ErrKinds, c.NilCalls, c.NilKinds, c.GetMode))...)
 		h.Col.Case(nt, canon, cl...)
 		if h.Col.WantSample() {
 			h.Col.Sample(map[string]any{"requests": c.strings(), "chunk_sizes": c.Sizes, "handler_error_calls": c.ErrCalls})
